@@ -71,5 +71,24 @@ HARNESSES['master_filter_bool_kinds'] = {'module': 'verif_master.rs', 'target': 
 HARNESSES['master_filter_text_kinds'] = {'module': 'verif_master.rs', 'target': 'services::valve_master_server::types::Filter::to_bytes', 'timeout': 1200,
     'what': 'text, tag-list and app-id filter kinds encode as \\name\\value', 'bounded': True, 'bound': 'one sample value per kind (text "de_x", tags [a, bc] and [], ids 440 and u32::MAX)'}
 SETS['C16'] = ['master_construct_payload', 'master_filter_bool_kinds', 'master_filter_text_kinds']
+MODULES['verif_firstreq.rs'] = {'owner': 'crates/lib/src/socket.rs', 'name': 'verif_firstreq'}
+FIRSTREQ = ['firstreq_valve_info', 'firstreq_gamespy_one', 'firstreq_gamespy_two', 'firstreq_gamespy_three', 'firstreq_quake_one', 'firstreq_quake_two', 'firstreq_quake_three', 'firstreq_unreal2', 'firstreq_savage2', 'firstreq_ffow', 'firstreq_mindustry', 'firstreq_minecraft_bedrock', 'firstreq_minecraft_java', 'firstreq_minecraft_legacy_1_6', 'firstreq_minecraft_legacy_1_4', 'firstreq_minecraft_legacy_b1_8']
+for _n in FIRSTREQ:
+    HARNESSES[_n] = {'module': 'verif_firstreq.rs', 'target': 'first transport write of ' + _n[9:], 'timeout': 1200,
+        'what': 'the transport is opened to the caller\'s address and port (all 65536 ports) with the right kind (UDP/TCP), and the first write is byte for byte the protocol\'s request; nothing after the first write is explored (path cut)'}
+# firstreq_minecraft_java: Kani reports 'pointer to unallocated memory' (unsupported construct) inside Vec::push on this path before
+# the first write is reached, also with a concrete port: tool limit, harness kept in the module but not counted
+MODULES['verif_req_valve.rs'] = {'owner': 'crates/lib/src/protocols/valve/types.rs', 'name': 'verif_req_valve'}
+MODULES['verif_req_gs3.rs'] = {'owner': 'crates/lib/src/protocols/gamespy/protocols/three/protocol.rs', 'name': 'verif_req_gs3'}
+HARNESSES['valve_packet_to_bytes'] = {'module': 'verif_req_valve.rs', 'target': 'protocols::valve::types::Packet::to_bytes',
+    'what': 'bytes == header big-endian, kind, payload (the contract U-VALVE assumes)', 'bounded': True, 'bound': 'payload length <= 6 (all header / kind / byte values)'}
+HARNESSES['valve_default_payload'] = {'module': 'verif_req_valve.rs', 'target': 'protocols::valve::types::Request::get_default_payload',
+    'what': 'Info -> "Source Engine Query\\0", Players / Rules -> FF FF FF FF; request codes 0x54 0x55 0x56 (complete: three variants)'}
+HARNESSES['gs3_request_packet_to_bytes'] = {'module': 'verif_req_gs3.rs', 'target': 'protocols::gamespy::three::RequestPacket::to_bytes',
+    'what': 'header BE, kind, session id BE, optional challenge BE (whatever its value, negative included), optional payload (complete: loop-free, all field values)'}
+for _n in ('firstreq_selftest_wrong_byte', 'firstreq_selftest_wrong_port'):
+    HARNESSES[_n] = {'module': 'verif_firstreq.rs', 'target': 'vacuity guard', 'what': 'a first-request harness with a deliberately wrong expectation is refuted (kani::should_panic)'}
+SETS['C09'] = [h for h in FIRSTREQ if h != 'firstreq_minecraft_java'] + ['firstreq_selftest_wrong_byte', 'firstreq_selftest_wrong_port', 'master_construct_payload',
+               'valve_packet_to_bytes', 'valve_default_payload', 'gs3_request_packet_to_bytes']
 DYNAMIC = {'C14': 'gen_defs'}
 BATCH = {"C14": 16}
